@@ -1,8 +1,11 @@
 (** * C06: integral-basis computation (src/integral_basis/{mod,round2}.rs)
     Theorems about the model entry points of coq/Model/Round2.v ([find_integral_basis], [one_step]) and
     the loops they are made of.  An order is its stored rational basis ([qmat]).
-    NOT proved (see vp/props/c06.py): that a fixed point of the Round 2 step is p-maximal
-    (Pohst-Zassenhaus), that the intermediate lattices are rings, independence of the generator. *)
+    Status (later sections of this file supersede the first-wave list): the Round 2 step maps orders to orders
+    and never panics (third wave), a fixed point of the step is p-maximal (Pohst-Zassenhaus) and the result is the
+    maximal order (fourth wave), for monic and non-monic f (fifth wave: the starting order is a ring).
+    NOT proved (see vp/props/c06.py): identification with the integral closure / field discriminant via
+    embeddings, independence of the generator. *)
 From RNT.Model Require Import Base Poly LinAlg Order Round2.
 From RNT.Model Require Elementary.
 From RNT.Refine Require Import Round2Basic Round2Index Round2Lattice Round2Det Round2Fuel.
